@@ -25,6 +25,14 @@ VARS = ['alp', 'betax', 'betay', 'betaz', 'rho', 'gxx', 'gxy', 'gxz', 'gyy',
 SHAPES = {0: (4, 3, 5), 1: (3, 4, 3)}
 
 
+def has_fields(got, want):
+    """The parse result is a mapping that holds every documented field with
+    the right value (further fields are the library's business: the property
+    asks that parsing inverts the naming scheme, not for a closed record)."""
+    return isinstance(got, dict) and all(
+        k in got and got[k] == v for k, v in want.items())
+
+
 def rng0(a, b, s):
     return list(range(a, b + 1, s))
 
@@ -500,7 +508,7 @@ def parsing_cases(run):
                 'm': 0 if m else None, 'rl': rl, 'c': c,
                 'combined variable name': f"{thorn}::{var}"}
         n += 1
-        if got != want:
+        if not has_fields(got, want):
             run.violation("C18:parse_hdf5_key:wrong",
                           f"{key!r} -> {got}", {'key': key})
     for bad in ['', 'foo', 'Parameters and Global Attributes',
@@ -533,7 +541,7 @@ def parsing_cases(run):
                 'xyz_suffix': '.xyz' if post else None,
                 'group_file': tg is not None}
         n += 1
-        if got != want:
+        if not has_fields(got, want):
             run.violation("C18:parse_h5file:wrong", f"{d + f!r} -> {got}",
                           {'file': d + f})
     for d, it, fn in itertools.product(dirs, [0, 354, 1589], [None, 0, 12]):
@@ -541,7 +549,7 @@ def parsing_cases(run):
             f".file_{fn}" if fn is not None else '') + '.h5'
         got = reading.parse_h5file(d + f)
         n += 1
-        if got != {'iteration': it, 'chunk_number': fn}:
+        if not has_fields(got, {'iteration': it, 'chunk_number': fn}):
             run.violation("C18:parse_h5file:checkpoint", f"{f!r} -> {got}",
                           {'file': d + f})
     for bad in ['foo.txt', 'alp.h5.bak', '', 'alp', '.h5', 'a b.h5',
